@@ -122,3 +122,83 @@ func walkIdents(e Expr, f func(string)) {
 		walkIdents(x.X, f)
 	}
 }
+
+// Qualify renames every definition of f to prefix+"."+name and rewrites the references to those
+// definitions inside f (used to load an imported package next to the package under validation:
+// goose prints a reference to X of package dep as dep.X).
+func Qualify(f *File, prefix string) {
+	ren := map[string]string{}
+	for _, d := range f.Decls {
+		if d.Kind == "other" || d.Name == "" {
+			continue
+		}
+		ren[d.Name] = prefix + "." + d.Name
+	}
+	for _, d := range f.Decls {
+		if d.Kind == "other" || d.Name == "" {
+			continue
+		}
+		bound := map[string]bool{}
+		for _, tp := range d.TypeParams {
+			bound[tp] = true
+		}
+		renameIdents(d.Body, ren, bound)
+		d.Name = ren[d.Name]
+	}
+}
+
+func renameIdents(e Expr, ren map[string]string, bound map[string]bool) {
+	r := func(x Expr) { renameIdents(x, ren, bound) }
+	switch x := e.(type) {
+	case nil:
+	case *Ident:
+		if n, ok := ren[x.Name]; ok && !bound[x.Name] {
+			x.Name = n
+		}
+	case *App:
+		r(x.Fn)
+		for _, a := range x.Args {
+			r(a)
+		}
+	case *Tuple:
+		for _, a := range x.Elems {
+			r(a)
+		}
+	case *Let:
+		r(x.Rhs)
+		r(x.Body)
+	case *Seq:
+		r(x.A)
+		r(x.B)
+	case *If:
+		r(x.Cond)
+		r(x.Then)
+		r(x.Else)
+	case *Lam:
+		r(x.Body)
+	case *Rec:
+		r(x.Body)
+	case *BinOp:
+		r(x.X)
+		r(x.Y)
+	case *Not:
+		r(x.X)
+	case *Load:
+		r(x.Ty)
+		r(x.X)
+	case *Store:
+		r(x.Ty)
+		r(x.Dst)
+		r(x.X)
+	case *For:
+		r(x.Cond)
+		r(x.Post)
+		r(x.Body)
+	case *FieldList:
+		for _, v := range x.Vals {
+			r(v)
+		}
+	case *Scoped:
+		r(x.X)
+	}
+}
